@@ -294,6 +294,12 @@ inline SGen valid_setting(Method m, const SOpts &o) {
       if (o.realistic_cost_max >= 6 && coin(1, 4)) {
         int c = (int)pick(6, o.realistic_cost_max);  // documented scrypt costs: N = 2^(c+7), r = 32, p = 1
         nl = c + 7; rr = 32; pp = 1;
+      } else if (coin(1, 5)) {
+        // multi-character r / p values (the 30-bit fields are five characters) with a tiny N
+        nl = (int)pick(2, 4);
+        rr = oneof<uint32_t>({32, 63, 64, 65, 100, 255, 256, 1000, 4095, 4096});
+        pp = oneof<uint32_t>({1, 2, 5, 63, 64, 65});
+        if ((uint64_t)rr * pp > 8192) pp = 1;
       }
       s.push_back(A64[nl]);
       s += fixed30_encode(rr);
@@ -337,7 +343,17 @@ inline SGen valid_setting(Method m, const SOpts &o) {
       }
       // parameter sets real deployments use: the costs crypt_gensalt(3) documents (count c: N = 2^(c+9), r = 8 for
       // c <= 2, N = 2^(c+7), r = 32 above), and N*r around the 2^17 blocks (16 MiB) where yescrypt starts to pre-hash
-      int real = o.realistic_cost_max > 0 ? wpick({6, 2, 2}) : 0;
+      bool multichar = coin(1, 6);
+      if (multichar) {
+        // multi-character parameter encodings (values >= 48 take two characters, >= 560 three) with a tiny N
+        nl = (int)pick(2, 5);
+        rr = oneof<uint64_t>({32, 47, 48, 49, 100, 559, 560, 561, 1000});
+        if (have & 1) pp = oneof<uint64_t>({2, 3, 49, 50, 51, 100});
+        if (have & 2) tt = oneof<uint64_t>({1, 2, 47, 48, 49});
+        if (rr * pp > 4096) pp = have & 1 ? 2 : 1;
+        cls += "/multichar-params";
+      }
+      int real = (o.realistic_cost_max > 0 && !multichar) ? wpick({6, 2, 2}) : 0;
       if (real == 1) {
         int c = (int)pick(1, o.realistic_cost_max);
         nl = c <= 2 ? c + 9 : c + 7;
